@@ -25,6 +25,10 @@ type TOp struct {
 	// 1 and 2 request contexts (mcrew's websocket client makes one per
 	// connection) that a dropCtx operation ends
 	Ctx int `json:"ctx,omitempty"`
+	// Via: how the request reaches the timers: "" the Timers API, "in" /
+	// "at" a makeTimer request through the service's glue with a relative
+	// delay or an absolute (RFC3339) due time
+	Via string `json:"via,omitempty"`
 }
 
 type TimerCase struct {
@@ -56,6 +60,7 @@ func genTOp(t *rapid.T, label string, depth int) TOp {
 		op.DelayMs = rapid.SampledFrom(timerDelays).Draw(t, label+".d")
 		if op.Kind == "make" {
 			op.Ctx = rapid.SampledFrom([]int{0, 0, 1, 2}).Draw(t, label+".ctx")
+			op.Via = rapid.SampledFrom([]string{"", "", "in", "at"}).Draw(t, label+".via")
 		}
 		if op.Kind == "contend" {
 			op.DelayMs = rapid.SampledFrom([]int{1, 2, 3}).Draw(t, label+".cd")
@@ -113,6 +118,7 @@ type timerHarness struct {
 	opMu      sync.Mutex
 	mu        sync.Mutex
 	ts        *Timers
+	svc       *Service // a service that has nothing but these timers (for the glue)
 	incs      []*incarnation
 	live      map[string]*incarnation // latest accepted incarnation per id
 	bad       string
@@ -169,7 +175,19 @@ func (h *timerHarness) makeL(op TOp, inFiringOf *incarnation) {
 	h.mu.Lock()
 	rctx := h.ctxs[op.Ctx]
 	h.mu.Unlock()
-	err := h.ts.Add(rctx, op.Id, map[string]interface{}{"inc": float64(n)}, time.Duration(op.DelayMs)*time.Millisecond)
+	var err error
+	msg := map[string]interface{}{"inc": float64(n)}
+	switch op.Via {
+	case "in":
+		err = h.svc.toTimers(rctx, map[string]interface{}{"makeTimer": map[string]interface{}{"id": op.Id, "in": fmt.Sprintf("%dms", op.DelayMs), "message": msg}})
+	case "at":
+		// the due time as an absolute time (rounded up to the next
+		// millisecond, so that the timer is not due before t0 + delay)
+		at := t0.Add(time.Duration(op.DelayMs) * time.Millisecond).Truncate(time.Millisecond).Add(time.Millisecond)
+		err = h.svc.toTimers(rctx, map[string]interface{}{"makeTimer": map[string]interface{}{"id": op.Id, "at": at.UTC().Format(time.RFC3339Nano), "message": msg}})
+	default:
+		err = h.ts.Add(rctx, op.Id, msg, time.Duration(op.DelayMs)*time.Millisecond)
+	}
 	h.mu.Lock()
 	defer h.mu.Unlock()
 	if err != nil {
@@ -445,6 +463,7 @@ func checkTimers(c TimerCase) (v ev.Verdict) {
 		h.ctxs[k], h.cancels[k] = context.WithCancel(ctx)
 	}
 	h.ts = NewTimers(h.emitter)
+	h.svc = &Service{timers: h.ts}
 	h.ts.Errors = make(chan interface{}, 1024)
 	for _, op := range c.Ops {
 		switch op.Kind {
